@@ -1,6 +1,7 @@
 SPECIFICATION MCSpec
 CONSTANTS
   OrderBy = "declared"
+  Chain = "first"
   Decode = "path"
   Packages = {}
   K = 4
